@@ -151,6 +151,19 @@ CHECKS = {
             "Rocq frame theorem over a generated write-effect summary (translator: go/ssa) - partial; race-detector runs compared with sequential results",
             "partial: the Go memory model, the mutex inside astikit's BiMap and heap aliasing not followed by the intra-procedural "
             "derivation (pointers passed as parameters) are not modelled; tools/geneffects (x/tools v0.29.0 go/ssa) is trusted."),
+    "C02": (True,
+            "Gallina transcription of ReadFromWebVTT (header loop, block state machine, NOTE/STYLE/Region blocks, cue settings, "
+            "X-TIMESTAMP-MAP), parseTextWebVTT (tag stack with classes/annotations, voices, inline timestamps, over a model of the "
+            "x/net/html tokenizer) and WriteToWebVTT. Theorems: reader and writer total for every input; reader schedule-independent "
+            "and fault-reporting; nothing-to-write; writer bytes independent of the iteration order of the style/region maps. "
+            "Tie: reader values, writer bytes and single-line parses compared with the extracted model on generated documents "
+            "(regions, STYLE, timestamp map, comments, settings, tag stacks of depth 0..3, timestamps, voices x EOL/BOM/short time "
+            "forms/ids/tabs), mutated documents and repository samples. Oracles: ground truth for the reader; an independent WebVTT "
+            "decoder and the reader for the writer (consecutive numbering, regions defined before use).",
+            "Rocq proof over a Gallina codec model (round-trip theorem in progress) + extracted-model differential correspondence + independent decoder",
+            "the write/read fidelity theorem over the model is not in this development yet; x/net/html tokenizer and the two regular "
+            "expressions are hand-written matchers compared with the library inside the faithful domain html_simple/vtt_tag_simple "
+            "(outside it only the Ok/Err/Panic class is compared)."),
 }
 
 PENDING = "check not built yet in this session (work in progress; see DESIGN.md section 7 for the plan)"
